@@ -10,7 +10,8 @@
 (*                                                                         *)
 (* MODE = "measure": print the reference measures of every case            *)
 (*   <<"MEASURE", id, depth, complexity(static), complexity(dynamic),       *)
-(*     nesting, directives>> -- the driver only adds -1, 0, +1 to them.     *)
+(*     nesting, directives, law>> -- the driver only adds -1, 0, +1 to      *)
+(*   them; law = Limits!InliningLaw holds for the document (design check).  *)
 (* MODE = "judge": one <<"VERDICT", id, json list of per-run verdicts>> per *)
 (*   case ("ok" / "known:<Dev,..>" / "violation").  The property, per run:  *)
 (*     rejected before any resolver ran  <=>  some configured limit is      *)
@@ -68,7 +69,8 @@ RunVerdicts(c) ==
 \* MEASURE line of the measuring pass
 MeasureLine(c) ==
   LET S == Measures(Ctx0(c, "static", {})) IN
-  <<"MEASURE", c.id, S["depth"], S["complexity"], Complexity(Ctx0(c, "dynamic", {})), S["recursive"], S["directives"]>>
+  <<"MEASURE", c.id, S["depth"], S["complexity"], Complexity(Ctx0(c, "dynamic", {})), S["recursive"], S["directives"],
+    InliningLaw(Ctx0(c, "static", {})) /\ InliningLaw(Ctx0(c, "dynamic", {}))>>
 
 TInit == l = 1
 TNext == /\ l <= Len(Cases)
